@@ -25,7 +25,8 @@ from vlib.proto import C, T, is_c, is_t, show, subterms
 from vlib.front import unparse, dotted, const_value, AnchorMissing
 
 M = 'phylib/io/datasets.py'
-FLOOR = 7
+FLOOR = 4          # decided obligations below this = the analysis lost its footing (exit 2); clean tree: 11
+RULES = ('C20.O1', 'C20.O2', 'C20.O3', 'C20.O4', 'C20.O5', 'C20.O6', 'C20.R0', 'C20.T1', 'C20.T2', 'C20.T3')          # every obligation group must report (holds / violated / undecided): a group that vanishes silently is an analysis error
 EXPLANATION = ('proto engine: every syntactic path of download_file is enumerated with its repo callees inlined '
                '(check, text download, HTTP get), external calls as fresh uninterpreted terms that may raise, '
                'file hash and stream saver summarised and checked separately; each complete event trace '
@@ -385,10 +386,19 @@ class HashWalk(proto.Interp):
             n, st = st.fresh()
             b = T('buf', C(n))
             return [('ok', b, st.emit('read', base, b))]
+        if m == 'readinto' and is_t(base) and base[1] == 'file' and len(args) == 1:
+            # n = f.readinto(view): the data read are view[:n]; n is 0 exactly at end of file. The read event carries the buffer term `view[:n]` and the count.
+            k, st = st.fresh()
+            cnt = T('nread', C(k))
+            b = T('index', args[0], T('slice3', C(None), cnt, C(None)))
+            return [('ok', cnt, st.emit('read', base, b, cnt))]
         if m == 'update' and is_t(base) and base[1] == 'md5obj':
             return [('ok', C(None), st.emit('update', base, args[0] if args else None))]
         if m in ('hexdigest', 'digest') and is_t(base) and base[1] == 'md5obj':
             return [('ok', T('digest', base, m), st)]
+        if is_t(base) and base[1] == 'file' and m not in ('close', '__enter__', '__exit__', 'seek', 'tell', 'fileno'):
+            # a way of reading the file that this walk does not model: whatever is concluded about the reads is then not definite
+            return [('ok', T('call', 'file.' + m, C(0), base, *args), st.emit('file-unknown', m))]
         return None
 
 
@@ -440,6 +450,8 @@ def check_hash(ctx, R):
                 if "'rb'" not in mtxt and "'br'" not in mtxt:
                     probs.append('file not opened in binary read mode (%s)' % mtxt); ok = False
                 tr = st.facts.get(('truth', b))
+                if tr is None and len(e) > 3:
+                    tr = st.facts.get(('truth', e[3]))          # readinto: the count decides (0 = end of file)
                 nxt = reads[i + 1] if i + 1 < len(reads) else None
                 if tr is True:
                     if not (nxt is not None and nxt[0] == 'update' and nxt[1] == obj and nxt[2] == b):
@@ -458,13 +470,16 @@ def check_hash(ctx, R):
                     probs.append('the digest is updated with something that was not just read'); ok = False
             i += 1
         last_read = [e for e in reads if e[0] == 'read'][-1:]
-        if last_read and st.facts.get(('truth', last_read[0][2])) is not False:
+        if last_read and st.facts.get(('truth', last_read[0][2])) is not False and not (len(last_read[0]) > 3 and st.facts.get(('truth', last_read[0][3])) is False):
             probs.append('the hash returns without having seen an empty read (only a prefix of the file is hashed)'); ok = False
         if not last_read:
             probs.append('the hash returns without reading the file'); ok = False
         n_ok += ok
     probs = sorted(set(probs))
-    if probs:
+    unknown_api = sorted({e[1] for kind, val, st in outs for e in st.trace if e[0] == 'file-unknown'})
+    if probs and unknown_api:
+        ctx.undecided('C20.T2', h, 'the file is read through %s, which the hash walk does not model: nothing is concluded about the hashed bytes' % ', '.join('.%s()' % x for x in unknown_api))
+    elif probs:
         for p in probs:
             ctx.violated('C20.T2', h, p, p)
     elif n_ok == 0:
